@@ -112,13 +112,27 @@ def parseReset : String → Option ResetStyle
   | "rollback" => some .rollback | "commit" => some .commit | "none" => some .none
   | _ => none
 
+def parseListener : String → Option Listener
+  | "none" => some .none | "force" => some .forceDisc | "nopool" => some .noPoolInval
+  | _ => none
+
+def runAll (rs : ResetStyle) (ls : Listener) (ops : String) : String :=
+  match (if ops == "-" then some [] else (ops.splitOn ";").mapM parseOp) with
+  | some ops =>
+    match runOps false (Conn.connect (DB.init rs ls)) ops with
+    | some out => if out.isEmpty then "-" else "|".intercalate out
+    | none => "bad-op"
+  | none => "bad-op"
+
+/-- `run <reset> <ops>` (no handle_error listener), `runl <reset> <listener> <ops>` -/
 def handle : List String → String
   | ["run", reset, ops] =>
-    match parseReset reset, (if ops == "-" then some [] else (ops.splitOn ";").mapM parseOp) with
-    | some rs, some ops =>
-      match runOps false (Conn.connect (DB.init rs)) ops with
-      | some out => if out.isEmpty then "-" else "|".intercalate out
-      | none => "bad-op"
+    match parseReset reset with
+    | some rs => runAll rs .none ops
+    | none => "bad-op"
+  | ["runl", reset, listener, ops] =>
+    match parseReset reset, parseListener listener with
+    | some rs, some ls => runAll rs ls ops
     | _, _ => "bad-op"
   | _ => "bad-op"
 
